@@ -1,6 +1,7 @@
 package toxics
 
 import (
+	"math"
 	"math/rand"
 	"time"
 )
@@ -20,7 +21,8 @@ func (t *LatencyToxic) delay() time.Duration {
 	// Delay = t.Latency +/- t.Jitter
 	delay := t.Latency
 	jitter := t.Jitter
-	if jitter > 0 {
+	// (a jitter so large that jitter*2 overflows would make rand.Int63n panic)
+	if jitter > 0 && jitter <= math.MaxInt64/2 {
 		// #nosec G404 -- was ignored before too
 		delay += rand.Int63n(jitter*2) - jitter
 	}
